@@ -32,17 +32,16 @@ def run(ctx):
     eff = facts.effects()
     shared_reader = None
     m = re.search(r"new_request::<(.*SequentialReader<.*?>>>), ", inst["name"])
-    boxed = []
-    for e in inst["edges"]:
-        if e["k"] == "unsize" and e["info"].get("vtable") and norm_dyn(e["info"]["dyn"]) == norm_dyn("dyn std::io::Read + std::marker::Send"):
-            boxed.append((e["bb"], e["info"]["vtable"]))
+    boxed_sites = shared.boxed_body_readers(facts)
+    site_fn = {(bb, ty): g for g, bb, ty in boxed_sites}
+    boxed = [(bb, ty) for g, bb, ty in boxed_sites]
     ctx.floor("C09.1 boxed body-reader types", len(boxed), 3)
     sr_re = re.compile(r"^util::sequential::SequentialReader<.*>$")
     n_wrapping = 0
     for bb, ty in sorted(set(boxed)):
         ctx.call_sites += 1
         if "util::sequential::SequentialReader<" not in ty:
-            ctx.ob("C09.1", "%s|reader|%s" % (nr.id, short(ty)), "a body reader that does not wrap the connection's shared reader cannot disturb the next message", True, nr.loc(bb), nontrivial=False)
+            ctx.ob("C09.1", "%s|reader|%s" % (nr.id, short(ty)), "a body reader that does not wrap the connection's shared reader cannot disturb the next message", True, site_fn[(bb, ty)].loc(bb), nontrivial=False)
             continue
         if sr_re.match(ty):
             # raw hand-over of the shared reader: allowed only for protocol upgrades (decided on the framing table)
@@ -53,7 +52,7 @@ def run(ctx):
                 for r in FM.rows:
                     if r["end"] == "return" and r["kind"] == "ok" and FM.compatible(r, A) and (r["reader"] == "raw") != A["upgrade"]:
                         bad.append((A, r["reader"]))
-            ctx.ob("C09.1", "%s|raw-reader-only-on-upgrade" % nr.id, "the raw shared reader is handed out exactly for `Connection: upgrade` requests (last request of the connection)", not bad, nr.loc(bb),
+            ctx.ob("C09.1", "%s|raw-reader-only-on-upgrade" % nr.id, "the raw shared reader is handed out exactly for `Connection: upgrade` requests (last request of the connection)", not bad, site_fn[(bb, ty)].loc(bb),
                    None if not bad else str(bad[:3]))
             continue
         n_wrapping += 1
@@ -63,7 +62,7 @@ def run(ctx):
         found = drain_in_glue(facts, glue[0], eff)
         ctx.ob("C09.1", "%s|drains-on-drop|%s" % (nr.id, short(re.sub(r"<util::sequential::SequentialReader<.*", "<R>", ty))),
                "a body reader wrapping the shared socket reader discards its unread rest when dropped, so the next request is parsed at the first byte after the body",
-               found is not None, nr.loc(bb), ("drained by " + found) if found else "no type in %s has a Drop that reads the inner reader: an unread (or partly read) body is left in the stream and parsed as the next request" % short(ty))
+               found is not None, site_fn[(bb, ty)].loc(bb), ("drained by " + found) if found else "no type in %s has a Drop that reads the inner reader: an unread (or partly read) body is left in the stream and parsed as the next request" % short(ty))
     ctx.floor("C09.1 readers wrapping the shared reader", n_wrapping, 2)
 
     # ---- C09.2 EqualReader::drop drains
